@@ -134,6 +134,28 @@ static inline uint64_t ll_popcount64(uint64_t x) { uint64_t c = 0; for (int i = 
 static inline uint64_t ll_ctlz(uint64_t x, unsigned w) { uint64_t c = 0; for (int i = (int)w - 1; i >= 0 && !((x >> i) & 1); --i) ++c; return c; }
 static inline uint64_t ll_cttz(uint64_t x, unsigned w) { uint64_t c = 0; for (unsigned i = 0; i < w && !((x >> i) & 1); ++i) ++c; return c; }
 
+/* exact-dyadic lowering (DESIGN 1.5): float = int32 holding value * 2^K.  Every operation carries its exactness and
+   representability obligations (|m| < 2^24: exactly representable in a 24-bit significand); if they all hold on the assumed input
+   grid, every IEEE operation of the real code returns the exact result and the integer run IS the float run on those inputs. */
+#ifdef LL_DYADIC_K
+typedef int32_t ll_fx;
+#ifdef __CPROVER__
+#define LL_FX_OBL(c, m) __CPROVER_assert((c), "DYADIC: " m)
+#else
+#define LL_FX_OBL(c, m) ((void)0)
+#endif
+#define LL_FX_LIM 16777216
+static inline ll_fx ll_fx_chk(int64_t m) { LL_FX_OBL(m > -LL_FX_LIM && m < LL_FX_LIM, "result exactly representable (|m| < 2^24)"); return (ll_fx)m; }
+static inline ll_fx ll_fx_add(ll_fx a, ll_fx b) { return ll_fx_chk((int64_t)a + (int64_t)b); }
+static inline ll_fx ll_fx_sub(ll_fx a, ll_fx b) { return ll_fx_chk((int64_t)a - (int64_t)b); }
+static inline ll_fx ll_fx_mul(ll_fx a, ll_fx b) { int64_t p = (int64_t)a * (int64_t)b; LL_FX_OBL((p & ((1 << LL_DYADIC_K) - 1)) == 0, "product on the grid (no bits dropped)"); return ll_fx_chk(p / (1 << LL_DYADIC_K)); }
+static inline ll_fx ll_fx_div(ll_fx a, ll_fx b) { LL_FX_OBL(b != 0, "division by zero"); int64_t n = (int64_t)a * (1 << LL_DYADIC_K); if (b == 0) return 0; LL_FX_OBL(n % b == 0, "quotient on the grid (exact)"); return ll_fx_chk(n / b); }
+static inline ll_fx ll_fx_fromint(int64_t x) { return ll_fx_chk(x * (1 << LL_DYADIC_K)); }
+static inline int64_t ll_fx_toint(ll_fx a) { return (int64_t)a / (1 << LL_DYADIC_K); }     /* truncates toward zero like fptosi */
+#define LL_FX_INEXACT(v) (LL_FX_OBL(0, "float constant off the grid is used"), (ll_fx)(v))
+#define LL_FX_UNSUPPORTED(m) LL_FX_OBL(0, "unsupported float construct reached: " m)
+#endif
+
 /* element-wise memmove for arrays of one struct type (see ll2c) */
 #define LL_TYPED_MOVE(T, d, s, n) do { \
     T *d_ = (T *)(d); const T *s_ = (const T *)(s); size_t n_ = (n), k_ = n_ / sizeof(T); \
